@@ -30,7 +30,17 @@ def pick_states(rng, n=None, allow_range=True):
     return list(names), list(names)
 
 
+SHORT_PARAM_POOL = ["k", "v", "r", "q", "p", "w", "m", "g"]      # one-letter names (none is a state name here)
+
+
 def pick_params(rng, p):
+    if rng.random() < 0.15:
+        # one-letter parameter names: the kind that collides with a loop variable or a local of the library
+        short = rng.sample(SHORT_PARAM_POOL, min(p, rng.randint(1, 3)))
+        rest = rng.sample(PARAM_POOL, p - len(short))
+        out = short + rest
+        rng.shuffle(out)
+        return out
     return rng.sample(PARAM_POOL, p)
 
 
